@@ -186,3 +186,825 @@ def brief(jr, ir):
     return [{"route": "java", "stage": jr.get("stage"), "status": jr["status"], "rc": jr["rc"], "out": jr["out"][-1500:],
              "err": jr["err"][-800:]},
             {"route": "interp", "status": ir["status"], "rc": ir["rc"], "out": ir["out"][-1500:], "err": ir["err"][-400:]}]
+
+
+# ------------------------------------------------------------------ hand-written family (Python oracle)
+# integer / boolean / string / list / record / closure / (uncaught) exception programs whose every
+# machine-integer value - operands, intermediates, results - is tracked and kept inside the 32-bit
+# Java int: the program-level form of the side condition fits_java.
+
+FHEAD = """#include "aldor"
+#include "aldorio"
+import from MachineInteger, String, Boolean;
+L ==> List MachineInteger;
+import from L;
+R ==> Record(x: MachineInteger, y: MachineInteger, s: String);
+import from R;
+F ==> (MachineInteger -> MachineInteger);
+define AType: Category == with { };
+AExn: AType == add { };
+U ==> Union(ua: MachineInteger, ub: String);
+import from U;
+mk(n: MachineInteger): F == (x: MachineInteger): MachineInteger +-> x + n;
+mkm(n: MachineInteger): F == (x: MachineInteger): MachineInteger +-> x * n;
+comp(f: F, g: F): F == (x: MachineInteger): MachineInteger +-> f(g(x));
+mkc(s: MachineInteger): (() -> MachineInteger) == { c: MachineInteger := 0; (): MachineInteger +-> { free c; c := c + s; c } }
+fib(n: MachineInteger): MachineInteger == if n < 2 then n else fib(n - 1) + fib(n - 2);
+fact(n: MachineInteger): MachineInteger == if n < 2 then 1 else n * fact(n - 1);
+gcd2(a: MachineInteger, b: MachineInteger): MachineInteger == if b = 0 then a else gcd2(b, a rem b);
+sum(l: L): MachineInteger == { t: MachineInteger := 0; for x in l repeat t := t + x; t }
+"""
+I32 = (-(1 << 31), (1 << 31) - 1)
+
+
+class Reject(Exception):
+    pass
+
+
+def _i32(v):
+    if not (I32[0] <= v <= I32[1]):
+        raise Reject()
+    return v
+
+
+def _quo(a, b):
+    q = abs(a) // abs(b)
+    return q if (a >= 0) == (b >= 0) else -q
+
+
+def _rem(a, b):
+    return a - b * _quo(a, b)
+
+
+def _mod(a, b):
+    # libaldor MachineInteger `mod`: result has the sign of ... (sal_mint.as: SIntMod = C %); b > 0 here
+    return _rem(a, b)
+
+
+class Family:
+    """Generates one program statement by statement, executing each statement on a Python state as it is
+    generated; `feat` collects the features used."""
+
+    def __init__(self, rng):
+        self.rng = rng
+        self.ints, self.lists, self.recs, self.clos, self.strs, self.ctrs = {}, {}, {}, {}, {}, {}
+        self.lines, self.out, self.feat = [], [], set()
+        self.n = 0
+
+    def fresh(self, p):
+        self.n += 1
+        return "%s%d" % (p, self.n)
+
+    def lit(self, v):
+        return "%d" % v if v >= 0 else "(-%d)" % -v
+
+    # integer expressions: (source, value); every node inside int32
+    def iexpr(self, depth=2):
+        r = self.rng
+        if depth == 0 or r.random() < 0.3:
+            if self.ints and r.random() < 0.6:
+                k = r.choice(sorted(self.ints))
+                return k, self.ints[k]
+            v = r.choice([0, 1, 2, 3, 7, 10, 255, 1000, 46340, 65536, r.randrange(-50, 50), r.randrange(-100000, 100000)])
+            return self.lit(v), v
+        op = r.choice(["+", "-", "*", "quo", "rem", "mod", "abs", "min", "max", "neg", "app", "len", "first", "fld", "fn"])
+        if op in ("+", "-", "*"):
+            (a, va), (b, vb) = self.iexpr(depth - 1), self.iexpr(depth - 1)
+            v = _i32({"+": va + vb, "-": va - vb, "*": va * vb}[op])
+            self.feat.add("integer")
+            return "(%s %s %s)" % (a, op, b), v
+        if op in ("quo", "rem", "mod"):
+            (a, va), (b, vb) = self.iexpr(depth - 1), self.iexpr(depth - 1)
+            if vb == 0 or (op == "mod" and vb < 0) or (va == I32[0] and vb == -1):
+                raise Reject()
+            v = _i32({"quo": _quo, "rem": _rem, "mod": _mod}[op](va, vb))
+            if op == "mod" and va < 0:
+                raise Reject()          # keep `mod` where every definition of it agrees
+            self.feat.add("integer-div")
+            return "(%s %s %s)" % (a, op, b), v
+        if op in ("abs", "neg"):
+            a, va = self.iexpr(depth - 1)
+            v = _i32(abs(va) if op == "abs" else -va)
+            return ("abs(%s)" % a if op == "abs" else "(- %s)" % a), v
+        if op in ("min", "max"):
+            (a, va), (b, vb) = self.iexpr(depth - 1), self.iexpr(depth - 1)
+            return "%s(%s, %s)" % (op, a, b), (min if op == "min" else max)(va, vb)
+        if op == "app" and self.clos:
+            f = r.choice(sorted(self.clos))
+            a, va = self.iexpr(depth - 1)
+            self.feat.add("closure")
+            return "%s(%s)" % (f, a), _i32(self.clos[f](va))
+        if op == "len" and self.lists:
+            k = r.choice(sorted(self.lists))
+            self.feat.add("list")
+            return "(#%s)" % k, len(self.lists[k])
+        if op == "first" and self.lists:
+            k = r.choice(sorted(self.lists))
+            if not self.lists[k]:
+                raise Reject()
+            self.feat.add("list")
+            return "first(%s)" % k, self.lists[k][0]
+        if op == "fld" and self.recs:
+            k = r.choice(sorted(self.recs))
+            fl = r.choice(["x", "y"])
+            self.feat.add("record")
+            return "%s.%s" % (k, fl), self.recs[k][fl]
+        if op == "fn":
+            which = r.choice(["fib", "fact", "gcd2", "sum"])
+            self.feat.add("recursion")
+            if which == "fib":
+                n = r.randrange(0, 18)
+                a, b = 0, 1
+                for _ in range(n):
+                    a, b = b, a + b
+                return "fib(%d)" % n, a
+            if which == "fact":
+                n = r.randrange(0, 13)
+                v = 1
+                for i in range(2, n + 1):
+                    v *= i
+                return "fact(%d)" % n, _i32(v)
+            if which == "gcd2":
+                a, b = r.randrange(0, 5000), r.randrange(0, 5000)
+                import math
+                return "gcd2(%d, %d)" % (a, b), math.gcd(a, b)
+            if self.lists:
+                k = r.choice(sorted(self.lists))
+                t = 0
+                for x in self.lists[k]:
+                    t = _i32(t + x)
+                self.feat.add("list")
+                return "sum(%s)" % k, t
+        return self.iexpr(depth - 1)
+
+    def bexpr(self):
+        r = self.rng
+        (a, va), (b, vb) = self.iexpr(1), self.iexpr(1)
+        op = r.choice(["<", "<=", ">", ">=", "=", "~="])
+        v = {"<": va < vb, "<=": va <= vb, ">": va > vb, ">=": va >= vb, "=": va == vb, "~=": va != vb}[op]
+        s = "(%s %s %s)" % (a, op, b)
+        if r.random() < 0.4:
+            (c, vc) = self.bexpr() if r.random() < 0.3 else ("true", True)
+            con = r.choice(["and", "or"])
+            s, v = "(%s %s %s)" % (s, con, c), ((v and vc) if con == "and" else (v or vc))
+        if r.random() < 0.3:
+            s, v = "(not %s)" % s, not v
+        self.feat.add("boolean")
+        return s, v
+
+    @staticmethod
+    def show(v):
+        if isinstance(v, bool):
+            return "T" if v else "F"
+        if isinstance(v, list):
+            return "[" + ",".join(str(x) for x in v) + "]"
+        return str(v)
+
+    def emit_print(self, items):
+        """items: [(source, value)] side-effect free"""
+        self.lines.append("stdout << " + ' << " " << '.join(s for s, _ in items) + " << newline;")
+        self.out.append(" ".join(self.show(v) for _, v in items))
+
+    def step(self):
+        r = self.rng
+        kind = r.choice(["int", "int", "list", "list2", "rec", "rec2", "clos", "clos2", "ctr", "str", "bool", "if",
+                         "while", "for", "comp", "print"])
+        if kind == "int":
+            s, v = self.iexpr(3)
+            if self.ints and r.random() < 0.4:
+                k = r.choice(sorted(self.ints))
+                self.lines.append("%s := %s;" % (k, s))
+            else:
+                k = self.fresh("i")
+                self.lines.append("%s: MachineInteger := %s;" % (k, s))
+            self.ints[k] = v
+            self.emit_print([(k, v)])
+        elif kind == "list":
+            es = [self.iexpr(1) for _ in range(r.randrange(0, 5))]
+            k = self.fresh("l")
+            self.lines.append("%s: L := [%s];" % (k, ", ".join(s for s, _ in es)))
+            self.lists[k] = [v for _, v in es]
+            self.feat.add("list")
+            self.emit_print([(k, self.lists[k]), ("empty? %s" % k, not self.lists[k])])
+        elif kind == "list2" and self.lists:
+            k = r.choice(sorted(self.lists))
+            op = r.choice(["cons", "rest", "reverse", "copy"])
+            self.feat.add("list")
+            if op == "cons":
+                s, v = self.iexpr(1)
+                self.lines.append("%s := cons(%s, %s);" % (k, s, k))
+                self.lists[k] = [v] + self.lists[k]
+            elif op == "rest":
+                if not self.lists[k]:
+                    raise Reject()
+                self.lines.append("%s := rest %s;" % (k, k))
+                self.lists[k] = self.lists[k][1:]
+            elif op == "reverse":
+                k2 = self.fresh("l")
+                self.lines.append("%s: L := reverse %s;" % (k2, k))
+                self.lists[k2] = list(reversed(self.lists[k]))
+                k = k2
+            else:
+                k2 = self.fresh("l")
+                self.lines.append("%s: L := %s;" % (k2, k))
+                self.lists[k2] = list(self.lists[k])          # immutable use only: sharing is not observable
+                k = k2
+            self.emit_print([(k, self.lists[k]), ("(#%s)" % k, len(self.lists[k]))])
+        elif kind == "rec":
+            (a, va), (b, vb) = self.iexpr(1), self.iexpr(1)
+            st = r.choice(["ab", "", "x y", "q"])
+            k = self.fresh("r")
+            self.lines.append('%s: R := [%s, %s, "%s"];' % (k, a, b, st))
+            self.recs[k] = {"x": va, "y": vb, "s": st}
+            self.feat.add("record")
+            self.emit_print([("%s.x" % k, va), ("%s.y" % k, vb), ("%s.s" % k, st)])
+        elif kind == "rec2" and self.recs:
+            k = r.choice(sorted(self.recs))
+            self.feat.add("record")
+            if r.random() < 0.5:
+                k2 = self.fresh("r")
+                self.lines.append("%s: R := %s;" % (k2, k))
+                self.recs[k2] = self.recs[k]              # the SAME record: updates through one name show through the other
+                self.feat.add("record-alias")
+            fl = r.choice(["x", "y"])
+            s, v = self.iexpr(1)
+            tgt = r.choice([n for n in self.recs if self.recs[n] is self.recs[k]])
+            self.lines.append("%s.%s := %s;" % (tgt, fl, s))
+            self.recs[tgt][fl] = v
+            self.emit_print([("%s.x" % k, self.recs[k]["x"]), ("%s.y" % k, self.recs[k]["y"])])
+        elif kind == "clos":
+            c = r.choice([0, 1, -1, 5, 100, -37, 1000])
+            k = self.fresh("f")
+            if r.random() < 0.6:
+                self.lines.append("%s: F := mk(%s);" % (k, self.lit(c)))
+                self.clos[k] = (lambda c: lambda x: _i32(x + c))(c)
+            else:
+                self.lines.append("%s: F := mkm(%s);" % (k, self.lit(c)))
+                self.clos[k] = (lambda c: lambda x: _i32(x * c))(c)
+            self.feat.add("closure")
+            a, va = self.iexpr(1)
+            self.emit_print([("%s(%s)" % (k, a), self.clos[k](va))])
+        elif kind == "clos2" and len(self.clos) >= 1:
+            f, g = r.choice(sorted(self.clos)), r.choice(sorted(self.clos))
+            k = self.fresh("f")
+            self.lines.append("%s: F := comp(%s, %s);" % (k, f, g))
+            self.clos[k] = (lambda ff, gg: lambda x: ff(gg(x)))(self.clos[f], self.clos[g])
+            self.feat.add("closure")
+            a, va = self.iexpr(1)
+            self.emit_print([("%s(%s)" % (k, a), self.clos[k](va))])
+        elif kind == "ctr":
+            self.feat.add("closure-state")
+            if self.ctrs and r.random() < 0.6:
+                k = r.choice(sorted(self.ctrs))
+            else:
+                k = self.fresh("k")
+                st = r.choice([1, 2, 10, -3])
+                self.lines.append("%s: (() -> MachineInteger) := mkc(%s);" % (k, self.lit(st)))
+                self.ctrs[k] = [0, st]
+            i = self.fresh("i")
+            self.ctrs[k][0] = _i32(self.ctrs[k][0] + self.ctrs[k][1])
+            self.lines.append("%s: MachineInteger := %s();" % (i, k))
+            self.ints[i] = self.ctrs[k][0]
+            self.emit_print([(i, self.ints[i])])
+        elif kind == "str":
+            k = self.fresh("s")
+            parts = [r.choice(['"ab"', '"x"', '""', '"hello world"', '"0"'])] + \
+                    ([r.choice(sorted(self.strs))] if self.strs and r.random() < 0.6 else [])
+            r.shuffle(parts)
+            val = "".join(self.strs[p] if p in self.strs else p.strip('"') for p in parts)
+            self.lines.append("%s: String := %s;" % (k, " + ".join(parts)))
+            self.strs[k] = val
+            self.feat.add("string")
+            other = r.choice(sorted(self.strs))
+            self.emit_print([(k, val), ("(#%s)" % k, len(val)), ("(%s = %s)" % (k, other), val == self.strs[other])])
+        elif kind == "bool":
+            s, v = self.bexpr()
+            self.emit_print([(s, v)])
+        elif kind == "if":
+            c, vc = self.bexpr()
+            (a, va), (b, vb) = self.iexpr(2), self.iexpr(2)
+            k = self.fresh("i")
+            self.lines.append("%s: MachineInteger := if %s then %s else %s;" % (k, c, a, b))
+            self.ints[k] = va if vc else vb
+            self.lines.append('if %s then stdout << "yes " << %s << newline else stdout << "no " << %s << newline;' % (c, k, k))
+            self.out.append("%s %d" % ("yes" if vc else "no", self.ints[k]))
+            self.feat.add("if")
+        elif kind == "while":
+            lim, step = r.randrange(1, 40), r.choice([1, 2, 3, 7])
+            i, acc = self.fresh("i"), self.fresh("i")
+            self.lines.append("%s: MachineInteger := 0;\n%s: MachineInteger := 0;" % (i, acc))
+            self.lines.append("while %s < %d repeat { %s := %s + %d; %s := %s + %s * %s }" % (i, lim, i, i, step, acc, acc, i, i))
+            vi = va = 0
+            while vi < lim:
+                vi += step
+                va = _i32(va + vi * vi)
+            self.ints[i], self.ints[acc] = vi, va
+            self.emit_print([(i, vi), (acc, va)])
+            self.feat.add("while")
+        elif kind == "for" and self.lists:
+            k = r.choice(sorted(self.lists))
+            n, c = r.randrange(1, 6), r.choice([1, 2, -1, 10])
+            self.lines.append("for j: MachineInteger in 1..%d repeat %s := cons(j * %s, %s);" % (n, k, self.lit(c), k))
+            for j in range(1, n + 1):
+                self.lists[k] = [j * c] + self.lists[k]
+            self.emit_print([(k, self.lists[k])])
+            self.feat.update(["for", "list"])
+        elif kind == "comp" and self.lists:
+            k = r.choice(sorted(self.lists))
+            k2 = self.fresh("l")
+            if self.clos and r.random() < 0.6:
+                f = r.choice(sorted(self.clos))
+                self.lines.append("%s: L := [%s(x) for x in %s];" % (k2, f, k))
+                self.lists[k2] = [_i32(self.clos[f](x)) for x in self.lists[k]]
+                self.feat.add("closure")
+            else:
+                c = r.choice([1, 2, -3])
+                self.lines.append("%s: L := [x * %s + 1 for x in %s];" % (k2, self.lit(c), k))
+                self.lists[k2] = [_i32(_i32(x * c) + 1) for x in self.lists[k]]
+            self.emit_print([(k2, self.lists[k2])])
+            self.feat.update(["list", "generator"])
+        elif kind == "print":
+            items = [self.iexpr(2) for _ in range(r.randrange(1, 4))]
+            self.emit_print(items)
+        else:
+            raise Reject()
+
+    def ending(self, kind):
+        self.feat.add("ending:" + kind)
+        if kind == "normal":
+            self.lines.append('stdout << "done" << newline;')
+            self.out.append("done")
+            return "ok"
+        s, v = self.iexpr(1)
+        if kind == "error":
+            self.lines.append('if %s = %s then error "boom";' % (s, s))
+        elif kind == "never":
+            self.lines.append("if %s = %s then never;" % (s, s))
+        elif kind == "throw":
+            self.lines.append("if %s = %s then throw AExn;" % (s, s))
+        elif kind == "union":
+            self.lines.append("u: U := [%s];\nstdout << u.ua << newline;\nstdout << u.ub << newline;" % s)
+            self.out.append(str(v))
+        self.lines.append('stdout << "unreachable" << newline;')
+        return "fail"
+
+
+FAMILY_ENDINGS = ["normal", "normal", "normal", "error", "never", "throw", "union"]
+
+
+def family_program(rng, steps):
+    """-> dict(src, oracle{out,status}, features) ; retries statements whose values would leave int32"""
+    g = Family(rng)
+    done = 0
+    tries = 0
+    while done < steps and tries < steps * 40:
+        tries += 1
+        saved = (dict(g.ints), {k: list(v) for k, v in g.lists.items()}, dict(g.clos), dict(g.strs),
+                 {k: list(v) for k, v in g.ctrs.items()}, len(g.lines), len(g.out), g.n, set(g.feat))
+        recs_saved = {k: (id(v), dict(v)) for k, v in g.recs.items()}
+        try:
+            g.step()
+            done += 1
+        except Reject:
+            g.ints, g.lists, g.clos, g.strs, g.ctrs = saved[0], saved[1], saved[2], saved[3], saved[4]
+            del g.lines[saved[5]:]
+            del g.out[saved[6]:]
+            g.n, g.feat = saved[7], saved[8]
+            # records: restore contents, keep identities (aliases)
+            for k in list(g.recs):
+                if k not in recs_saved:
+                    del g.recs[k]
+            byid = {}
+            for k, (i, d) in recs_saved.items():
+                byid.setdefault(i, g.recs[k])
+                g.recs[k].clear()
+                g.recs[k].update(d)
+    while True:
+        try:
+            status = g.ending(rng.choice(FAMILY_ENDINGS))
+            break
+        except Reject:
+            continue
+    src = FHEAD + "\n".join(g.lines) + "\n"
+    return {"src": src, "oracle": {"out": "".join(o + "\n" for o in g.out), "status": status},
+            "features": sorted(g.feat), "family": True}
+
+
+# ------------------------------------------------------------------ builtin level on the real JVM
+
+BHEAD = """#include "aldor"
+#include "aldorio"
+import from Machine;
+import from MachineInteger, Boolean;
+import {
+%s
+} from Builtin;
+macro K(n) == ((n@MachineInteger)::SInt);
+pr(tag: String, x: SInt): () == { stdout << tag << " " << (x::MachineInteger) << newline; }
+bi(b: Bool): SInt == { if (b::Boolean) then K(1) else K(0) }
+tt: Bool == (true@Boolean)::Bool;
+ff: Bool == (false@Boolean)::Bool;
+"""
+ALDOR_TY = {"FBool": "Bool", "FChar": "Char", "FByte": "XByte", "FHInt": "HInt", "FSInt": "SInt"}
+M31 = 1 << 31
+
+
+def b_boundary(ty, rng):
+    if ty == "FBool":
+        return [0, 1]
+    if ty in ("FChar", "FByte"):
+        return [0, 1, 9, 10, 32, 47, 48, 57, 58, 64, 65, 90, 91, 96, 97, 122, 123, 126, 127]
+    if ty == "FHInt":
+        return [0, 1, -1, 2, 255, 256, 32767, -32768, rng.randrange(-32768, 32768)]
+    return [0, 1, -1, 2, -2, 3, 7, -7, 31, 32, 255, 256, 65535, 65536, 46340, 46341, M31 - 1, -M31, -M31 + 1, M31 - 2,
+            rng.randrange(-M31, M31), rng.randrange(-100000, 100000)]
+
+
+def b_operand(ty, v):
+    if ty == "FBool":
+        return "tt" if v else "ff"
+    if ty == "FSInt":
+        return "K(%d)" % v if v >= 0 else "(K(0) - K(%d))" % -v if v == -M31 else "K(-%d)" % -v
+    if ty == "FChar":
+        return "CharNum(K(%d))" % v
+    if ty == "FByte":
+        return "SIntToByte(K(%d))" % v
+    if ty == "FHInt":
+        return "SIntToHInt(%s)" % b_operand("FSInt", v)
+    raise ValueError(ty)
+
+
+def b_result(rty, e):
+    if rty == "FSInt":
+        return e
+    if rty == "FBool":
+        return "bi(%s)" % e
+    if rty == "FChar":
+        return "CharOrd(%s)" % e
+    if rty == "FByte":
+        return "ByteToSInt(%s)" % e
+    if rty == "FHInt":
+        return "HIntToSInt(%s)" % e
+    raise ValueError(rty)
+
+
+def b_program(tests, sigs):
+    """tests: [(name, operands)] -> source printing `t<i> <integer>` per test"""
+    used = {"CharNum", "SIntToByte", "SIntToHInt", "CharOrd", "ByteToSInt", "HIntToSInt", "SIntMinus"} | {n for n, _ in tests}
+    imp = "\n".join("  %s: (%s) -> %s;" % (n, ", ".join(ALDOR_TY[a] for a in sigs[n]["args"]), ALDOR_TY[sigs[n]["ret"]])
+                    for n in sorted(used) if n in sigs)
+    body = []
+    for i, (n, ops) in enumerate(tests):
+        call = "%s(%s)" % (n, ", ".join(b_operand(t, v) for t, v in zip(sigs[n]["args"], ops)))
+        body.append('pr("t%d", %s);' % (i, b_result(sigs[n]["ret"], call)))
+    return BHEAD % imp + "\n".join(body) + "\n"
+
+
+def parse_t(out):
+    vals = {}
+    for line in out.split("\n"):
+        m = re.fullmatch(r"(t\d+) (-?\d+)", line.strip())
+        if m:
+            vals[m.group(1)] = int(m.group(2))
+    return vals
+
+
+def model_driver():
+    ex = C.COQ + "/Java/extracted"
+    return C.build_ocaml("javab", [ex + "/javab.mli", ex + "/javab.ml"], C.COQ + "/Java/driver.ml")
+
+
+def model_query(drv, lines):
+    rc, out, err = C.run([drv], input="\n".join(lines) + "\n", timeout=300)
+    if rc != 0:
+        raise RuntimeError("javab driver failed: " + err[-500:])
+    return [json.loads(x) for x in out.splitlines() if x.strip()]
+
+
+def builtin_level(rep, exe, drv, rng, quick, base, stats):
+    """Every specified builtin the Java route supports, on boundary operands inside AND outside the side
+    condition: (i) the real JVM value equals the model's jsem (validates the embedding of Java), (ii) inside the
+    side condition the JVM value equals the interpreter's and the specification's (the property, builtin level)."""
+    rows = model_query(drv, ["rows"])[0]
+    names = [n for n, k in rows.items() if k == "specified"]
+    sigs = {}
+    for n, s in zip(names, model_query(drv, ["sig " + n for n in names])):
+        sigs[n] = s
+    tests = []
+    cap = 12 if quick else 60
+    for n in names:
+        s = sigs[n]
+        if any(a not in ALDOR_TY for a in s["args"]) or s["ret"] not in ALDOR_TY:
+            continue
+        doms = [b_boundary(a, rng) for a in s["args"]]
+        tups = list(itertools.product(*doms)) if doms else [()]
+        rng.shuffle(tups)
+        tests += [(n, list(t)) for t in tups[:cap]]
+    ans = model_query(drv, ["eval %s %s" % (n, " ".join(str(x) for x in ops)) for n, ops in tests])
+    keep = [(t, a) for t, a in zip(tests, ans) if a["typed"] and a["dom"] and a["java"] != "undef"]
+    # programs of ~150 tests: one JVM each
+    chunks = [keep[i:i + 150] for i in range(0, len(keep), 150)]
+    progs = [{"unit": "b%d" % i, "src": b_program([t for t, _ in ch], sigs)} for i, ch in enumerate(chunks)]
+    d = base + "/builtins"
+    jr = java_batch(exe, progs, d, [0], timeout=120)
+    ir = interp_batch(exe, progs, d, [0], timeout=120)
+    seen_bad = set()
+    for p, ch in zip(progs, chunks):
+        j, it = jr[(p["unit"], 0)], ir[(p["unit"], 0)]
+        if j["status"] in ("gen-error", "javac-error") or it["rc"] != 0:
+            stats["builtin_chunks_failed"] += 1
+            rep.violation("builtin-level test program does not get through the %s" % ("Java route: " + j["status"] if it["rc"] == 0 else "interpreter"),
+                          {"src": p["src"][:6000], "java": j["err"][-1500:] + j["out"][-500:], "interp": it["out"][-800:]}, no_input=True)
+            continue
+        jv, iv = parse_t(j["out"]), parse_t(it["out"])
+        for i, ((n, ops), a) in enumerate(ch):
+            t = "t%d" % i
+            stats["builtin_evaluations"] += 1
+            if t not in jv or t not in iv:
+                if n not in seen_bad:
+                    seen_bad.add(n)
+                    rep.violation("builtin %s%s: no value printed on the %s route (the program died: %s)"
+                                  % (n, ops, "Java" if t not in jv else "interpreter", j["err"].strip().split("\n")[0][:150]),
+                                  {"builtin": n, "operands": ops, "java_stderr": j["err"][:800]}, key="java:" + n)
+                continue
+            model_java = int(a["java"])
+            if a["fits"]:
+                stats["builtin_inside_side_condition"] += 1
+                # THE PROPERTY at builtin level
+                if jv[t] != iv[t] or jv[t] != int(a["spec"]):
+                    if n not in seen_bad:
+                        seen_bad.add(n)
+                        rep.violation("builtin %s on %s: Java gives %d, the interpreter %d, the definition %s (inside the side condition)"
+                                      % (n, ops, jv[t], iv[t], a["spec"]),
+                                      {"builtin": n, "operands": ops, "java": jv[t], "interp": iv[t], "spec": a["spec"],
+                                       "how_to_replay": "./check C12 --replay <this file>"}, key="java:" + n)
+                    continue
+            if jv[t] != model_java:
+                stats["builtin_model_mismatch"] += 1
+                if ("model", n) not in seen_bad:
+                    seen_bad.add(("model", n))
+                    rep.violation("correspondence Java/Model no longer checks: %s on %s is %d on the JVM, the model says %d"
+                                  % (n, ops, jv[t], model_java), {"builtin": n, "operands": ops, "jvm": jv[t], "model": model_java},
+                                  no_input=True)
+            else:
+                stats["builtin_model_agree"] += 1
+    stats["builtin_names"] = len({n for (n, _), _ in keep})
+    return rows
+
+
+# ------------------------------------------------------------------ corpus
+
+def corpus_items():
+    d = os.path.join(C.VERIF, "corpus", ID)
+    items = []
+    for f in sorted(os.listdir(d)) if os.path.isdir(d) else []:
+        if not f.endswith(".as"):
+            continue
+        txt = open(os.path.join(d, f)).read()
+        meta = dict(re.findall(r"^--# (\S+): (.*)$", txt, re.M))
+        it = {"name": f[:-3], "src": txt, "unit": "c" + re.sub(r"\W", "", f[:-3])[:20],
+              "levels": [int(x) for x in meta.get("levels", "1,3,9").split(",")], "key": meta.get("key")}
+        if "expect-out" in meta:
+            it["oracle"] = {"out": json.loads(meta["expect-out"]), "status": "ok"}
+        items.append(it)
+    return items
+
+
+# ------------------------------------------------------------------ run
+
+def mini_filter(p):
+    """the STATED filter on a MiniAldor program: every feature supported, literal classes inside 32 bits, and no
+    machine-integer arithmetic (its intermediates cannot be bounded from the feature list)"""
+    fs = set(p["features"])
+    if fs - MINI_SUPPORTED:
+        return "feature " + ",".join(sorted(fs - MINI_SUPPORTED))
+    if not all(l in MINI_LITERALS or l.startswith("int:") for l in p["literals"]):
+        return "literal beyond 32 bits"
+    return None
+
+
+MINI_LITERALS = {"mi:0", "mi:1", "mi:small", "bool", "str:empty", "str:plain", "str:escaped"}
+# features of the MiniAldor tool the Java route handles, by experiment (feature survey on the unchanged tree).
+MINI_UNSUPPORTED = {
+    "try": "genjava aborts: `Java not implemented: Tag: Catch' (the repository's own Makefile lists jcatch among its bad tests)",
+    "mi-arith": "MachineInteger is a 32-bit int on the Java route: intermediates of + - * may leave 32 bits (side condition fits_java); "
+                "machine-integer arithmetic is exercised by the hand-written family, whose values are tracked",
+    "convert": "`machine' of an Integer beyond 32 bits truncates differently (BigInteger.intValue)",
+}
+MINI_SUPPORTED = {
+    "print", "global", "variable", "constant", "local", "locals", "assign-global", "assign-local",
+    "mi-cmp", "mi-div", "bool-op", "and-or", "if-expr", "if-stmt", "value-seq",
+    "function", "pure-function", "impure-function", "call", "call-stmt", "recursion", "overload", "return",
+    "exit", "exit-value", "for", "while", "break", "iterate", "string-op", "int-arith", "int-cmp", "int-div",
+    "list-literal", "list-empty", "list-op", "for-in-list", "macro-call", "throw", "error", "never",
+}
+
+
+def run(rep, tier):
+    t0 = time.time()
+    quick = tier == "quick"
+    exe = C.build_compiler()
+    tr = G.translate(C.SRC, C.R + "/aldor")
+    known_bad = G.known_bad_from(C.known_findings())
+    C.write_if_changed(GEN, G.emit_coq(tr, known_bad))
+    ties = G.broken_ties(tr)
+    proved = C.proof_stage(rep, ID, ["Props/Properties_C12.vo", "Java/Extract.vo"], "Props/Properties_C12.v", None, defer=True)
+    if ties:
+        rep.violation("rows of the Java builtin table that used to embed no longer do: %s" % ties,
+                      {"rows": ties, "why": {r["name"]: r["exp"] for r in tr["rows"] if r["name"] in ties}}, no_input=True)
+    t_proof = time.time() - t0
+    base = C.scratch("c12")
+    rng = C.rng("c12")
+    stats = collections.Counter()
+    drv = None
+    rows = {}
+    try:
+        drv = model_driver()
+        rows = builtin_level(rep, exe, drv, rng, quick, base, stats)
+    except (C.BuildError, OSError) as e:
+        rep.notes.append("Java builtin model not available (extraction did not build): %s" % str(e)[:200])
+    t_builtin = time.time() - t0 - t_proof
+
+    # ---- programs
+    progs = []
+    corp = corpus_items()
+    for it in corp:
+        progs.append(dict(it, family="corpus", features=["corpus"]))
+    n_fam = 14 if quick else 160
+    n_end = 6 if quick else 40
+    n_mini = 10 if quick else 120
+    for i in range(n_fam):
+        p = family_program(rng, rng.randrange(4, 16 if quick else 30))
+        p.update(unit="h%d" % i, family="hand", levels=[q for q in LEVELS if not ("record-alias" in p["features"] and q > 3)])
+        progs.append(p)
+    kinds = ["normal", "error", "never", "throw", "halt", "union", "assert"]
+    for i in range(n_end):
+        p = c03.ending_program(rng, kinds[i % len(kinds)], c03.CONTEXTS[i % 4])
+        p.update(unit="e%d" % i, family="ending", levels=LEVELS)
+        progs.append(p)
+    mini.build(rebuild_coq=False)
+    dropped = collections.Counter()
+    cand = 0
+    got = []
+    while len(got) < n_mini and cand < n_mini * 60:
+        seeds = [rng.randrange(1, 2 ** 40) for _ in range(64)]
+        for p in mini.batch(["gen %d %d" % (s, rng.choice([4, 5, 6, 8])) for s in seeds]):
+            cand += 1
+            why = mini_filter(p)
+            if why:
+                dropped[why.split(" ")[0] + " " + why.split(" ")[1].split(",")[0]] += 1
+                continue
+            if len(got) < n_mini:
+                p.update(unit="m%d" % len(got), family="mini", levels=LEVELS,
+                         oracle={"out": p["expect_out"], "status": p["expect_status"]})
+                got.append(p)
+    progs += got
+    feat = collections.Counter()
+    for p in progs:
+        feat.update(p.get("features", []))
+
+    def oracle_of(p, q):
+        o = c03.pick_oracle(p, q)
+        if o and p.get("family") == "ending" and "out" in o:
+            o = dict(o, out=o["out"].replace("Assertion failed at p:", "Assertion failed at %sq%d:" % (p["unit"], q)))
+        return o
+    t1 = time.time()
+    d = base + "/progs"
+    by_level = collections.defaultdict(list)
+    for p in progs:
+        for q in p["levels"]:
+            by_level[q].append(p)
+    jr, ir = {}, {}
+    for q, ps in sorted(by_level.items()):
+        jr.update(java_batch(exe, ps, "%s/q%d" % (d, q), [q], timeout=40 if quick else 90))
+        ir.update(interp_batch(exe, ps, "%s/q%d" % (d, q), [q], timeout=40 if quick else 90))
+    t_run = time.time() - t1
+    verdicts = collections.Counter()
+    per_family = collections.defaultdict(collections.Counter)
+    groups = collections.Counter()
+    bad_mini = []
+    for p in progs:
+        for q in p["levels"]:
+            k = (p["unit"], q)
+            v, det = compare(jr[k], ir[k], oracle_of(p, q))
+            if v == "disagree" and jr[k]["status"] not in ("gen-error", "javac-error") \
+                    and jr[k]["out"] == c03.strip_trace(ir[k]["out"]) and jr[k]["status"] == ir[k]["status"]:
+                v = "agree-not-oracle"
+            verdicts[v] += 1
+            per_family[p["family"]][v] += 1
+            if v in ("agree", "incomparable"):
+                continue
+            key = p.get("key") or signature_key(jr[k], q)
+            if v == "agree-not-oracle" and not p.get("key"):
+                # Java and the interpreter agree with each other: not this property's violation, but a defect all the same
+                stats["agree_not_oracle"] += 1
+                rep.notes.append("Java and interpreter agree but differ from the oracle (-Q%d, %s %s): see replay" % (q, p["family"], p["unit"]))
+            g = "%s:%s:%s" % (p["family"], key or "", det[:60])
+            groups[g] += 1
+            if groups[g] > 1 or len(groups) > 12 and not key:
+                continue
+            if p["family"] == "mini" and not key:
+                bad_mini.append((p, q, det))
+                continue
+            rep.violation("%s program %s at -Q%d: %s" % (p["family"], p.get("name", p["unit"]), q, det),
+                          {"how_to_replay": "./check C12 --replay <this file>", "src": p["src"], "level": q, "unit": p["unit"],
+                           "oracle": oracle_of(p, q), "features": p.get("features"), "observed": brief(jr[k], ir[k])}, key=key)
+    for p, q, det in bad_mini[:2]:
+        def still_fails(cand_p, q=q):
+            dd = "%s/shr-%d" % (base, next(_uniq))
+            try:
+                c = dict(cand_p, unit="s")
+                j = java_batch(exe, [c], dd, [q], timeout=40)
+                i = interp_batch(exe, [c], dd, [q], timeout=40)
+                return compare(j[("s", q)], i[("s", q)], {"out": cand_p["expect_out"], "status": cand_p["expect_status"]})[0] == "disagree"
+            finally:
+                shutil.rmtree(dd, ignore_errors=True)
+        # shrinking must stay inside the filter, or the disagreement may become a side-condition artefact
+        path, small = mini.shrink(p["seed"], p["size"], lambda c: mini_filter(c) is None and still_fails(c),
+                                  budget_s=(60 if quick else 300))
+        rep.violation("generated program (seed %d size %d, shrunk to %s nodes) at -Q%d: %s" % (p["seed"], p["size"], small.get("nodes"), q, det),
+                      {"how_to_replay": "./check C12 --replay <this file>", "seed": p["seed"], "size": p["size"], "path": path,
+                       "level": q, "unit": "s", "src": small["src"],
+                       "oracle": {"out": small["expect_out"], "status": small["expect_status"]}})
+    for p, q, det in bad_mini[2:]:
+        rep.violation("generated program (seed %d size %d, not shrunk) at -Q%d: %s" % (p["seed"], p["size"], q, det),
+                      {"seed": p["seed"], "size": p["size"], "level": q, "unit": p["unit"], "src": p["src"], "oracle": p["oracle"]})
+
+    n_cmp = sum(verdicts.values())
+    rowclass = collections.Counter(rows.values())
+    rep.add_cov(evaluations=2 * n_cmp + 2 * stats["builtin_evaluations"],
+                distinct_nontrivial=len({p["src"] for p in progs}) + stats["builtin_evaluations"],
+                traces_validated_against_impl=stats["builtin_model_agree"],
+                rule="per (program, level): javac accepts the generated classes; stdout and status class of `java aldorcode.<unit>` "
+                     "equal those of `aldor -ginterp` and the oracle's.  Per (builtin, operands): JVM value = model value; inside "
+                     "the side condition also = interpreter value = specification",
+                samples=[{"unit": p["unit"], "family": p["family"], "features": p.get("features", [])[:8]} for p in progs[:12]],
+                input_distribution={
+                    "levels": LEVELS, "programs": {"corpus": len(corp), "hand": n_fam, "ending": n_end, "mini": len(got)},
+                    "pairs": n_cmp, "verdicts": dict(verdicts), "verdicts_per_family": {k: dict(v) for k, v in per_family.items()},
+                    "mini_candidates": cand, "mini_dropped_by_filter": dict(dropped.most_common(12)),
+                    "mini_filter": {"supported_features": sorted(MINI_SUPPORTED), "literal_classes": sorted(MINI_LITERALS) + ["int:*"],
+                                    "unsupported": MINI_UNSUPPORTED},
+                    "feature_mix(programs containing)": dict(feat.most_common()),
+                    "builtin_level": {k: v for k, v in stats.items() if k.startswith("builtin")},
+                    "java_table_rows": dict(rowclass), "known_bad_java_rows": known_bad,
+                    "disagreement_groups": dict(groups),
+                },
+                timings_s={"generate+proof": round(t_proof, 1), "builtin level (JVM)": round(t_builtin, 1), "programs": round(t_run, 1)})
+    rep.assume(
+        "exit status compared as a class (0 = ok, anything else = fail)",
+        "the jars (foamj.jar, foam.jar, aldor.jar: the Java run time and the Java-compiled Aldor libraries) are the pre-built ones of "
+        "/repo; the compiler, hence every generated .java file, is built from the current tree on every run",
+        "side condition at program level: hand-written family - every machine-integer value is tracked by the generator and kept "
+        "inside 32 bits; MiniAldor family - literal classes inside 32 bits and no machine-integer arithmetic (filter mini_filter, stated "
+        "in input_distribution.mini_filter, rejections counted)",
+        "try/catch is outside the supported subset: genjava has no case for FOAM Catch (aborts with `Compiler bug'); uncaught throw, "
+        "error, never, assert, halt are inside",
+        "programs with an update through a record alias are not run at -Q9 (keyed finding opt:Q4+:record-alias-stale-field, reproduced "
+        "by corpus/C12/record_alias_q4.as on every run)",
+        "java.lang.Character methods are modelled on ASCII only; javac, the JVM and foamj's classes are not modelled",
+        "translator tools/javabuiltins_gen.py: the meaning of each gj0BCall<Method> generator is hard-wired and its text is checked "
+        "against a pattern on every run (a changed generator makes its rows opaque, and the proofs fail)")
+    if verdicts["incomparable"] * 2 > n_cmp:
+        rep.violation("more than half of the sampled (program, level) pairs were incomparable", dict(verdicts), no_input=True)
+
+
+def signature_key(jr, q):
+    """a Java-route failure whose message names the place that gave up gets a key naming it"""
+    txt = (jr.get("out", "") + jr.get("err", ""))
+    m = re.search(r"Bug: Java not implemented: ([A-Za-z ]+:? ?[A-Za-z, ]*)", txt)
+    if m:
+        return "javagen:%s" % re.sub(r"\s+", " ", m.group(1)).strip().rstrip("(").strip()
+    return None
+
+
+def replay(path):
+    obj = json.load(open(path))
+    rp = obj.get("replay", obj)
+    exe = C.build_compiler()
+    if "builtin" in rp:
+        drv = model_driver()
+        n, ops = rp["builtin"], rp["operands"]
+        s = model_query(drv, ["sig " + n])[0]
+        a = model_query(drv, ["eval %s %s" % (n, " ".join(str(x) for x in ops))])[0]
+        p = {"unit": "b", "src": b_program([(n, ops)], {n: s, **{k: model_query(drv, ["sig " + k])[0] for k in
+             ("CharNum", "SIntToByte", "SIntToHInt", "CharOrd", "ByteToSInt", "HIntToSInt", "SIntMinus")}})}
+        d = C.scratch("c12r")
+        j = java_batch(exe, [p], d, [0])[("b", 0)]
+        i = interp_batch(exe, [p], d, [0])[("b", 0)]
+        print("%s%s: java %r interp %r model %s" % (n, ops, j["out"].strip() or j["err"][:300], i["out"].strip(), a))
+        return 0 if parse_t(j["out"]) == parse_t(i["out"]) and parse_t(j["out"]) else 1
+    if "src" not in rp:
+        print("replay: no program in %s" % path)
+        return 2
+    q = rp.get("level", 1)
+    p = {"unit": rp.get("unit", "p"), "src": rp["src"]}
+    d = C.scratch("c12r")
+    j = java_batch(exe, [p], d, [q])[(p["unit"], q)]
+    i = interp_batch(exe, [p], d, [q])[(p["unit"], q)]
+    v, det = compare(j, i, rp.get("oracle"))
+    print(rp["src"] if len(rp["src"]) < 6000 else rp["src"][:6000] + "...")
+    print("--- level -Q%d: %s %s" % (q, v, det))
+    for r in brief(j, i):
+        print("--- %s: %s rc=%s\n%s%s" % (r["route"], r["status"], r["rc"], r["out"], ("[stderr] " + r["err"][:600]) if r["err"] else ""))
+    return 1 if v == "disagree" else 0
